@@ -87,11 +87,21 @@ func (w *World) functionsFor(prop string) []*ssa.Function {
 			out = append(out, f)
 			continue
 		}
-		fc := w.contracts[key]
-		if fc == nil {
-			continue
+		shared := false
+		for _, c := range w.commonPostFor(f) {
+			if hasProp(c.Props, prop) {
+				shared = true
+			}
 		}
-		if fc.mentions(prop) {
+		if cs, _ := w.recvInvFor(f); len(cs) > 0 {
+			for _, c := range cs {
+				if hasProp(c.Props, prop) {
+					shared = true
+				}
+			}
+		}
+		fc := w.contracts[key]
+		if shared || (fc != nil && fc.mentions(prop)) {
 			out = append(out, f)
 		}
 	}
